@@ -272,6 +272,7 @@ mod resp {
         match rng.below(6) {
             0 => { headers.insert(0, Header { name: "X-Echo".into(), value: "https://a.example X-H0: spoof Content-Type: x Content-Length: 1".into() }); }
             1 => { headers.push(Header { name: "X-H0".into(), value: "same name twice".into() }); }
+            2 => { headers.push(Header { name: "X-Columns".into(), value: "name\tsize\tmodified \u{7f} \u{1}".into() }); }     // control characters other than CR / LF survive
             _ => {}
         }
         let codes = [(200i16, "OK"), (206, "Partial Content"), (404, "Not Found"), (416, "Range Not Satisfiable"), (204, "No Content")];
@@ -1086,7 +1087,9 @@ mod parsers {
                 Err(_) => h.hit("parsers", "c15_roundtrip_panic", "Response::parse", &i.to_string(), "panic"),
                 Ok(Err(e)) => h.hit("parsers", "c15_roundtrip", "Response::parse", &i.to_string(), &format!("Err({}) for {:?}", e, r)),
                 Ok(Ok(p)) => {
-                    let same = p.status_code == r.status_code && p.reason_phrase == r.reason_phrase && p.content_range_list.len() == r.content_range_list.len()
+                    // the caller's headers come back first, in order, with their values (the framing headers follow them)
+                    let headers_back = p.headers.len() >= r.headers.len() && p.headers.iter().zip(r.headers.iter()).all(|(a, b)| a.name == b.name && a.value == b.value);
+                    let same = headers_back && p.status_code == r.status_code && p.reason_phrase == r.reason_phrase && p.content_range_list.len() == r.content_range_list.len()
                         && p.content_range_list.iter().zip(r.content_range_list.iter()).all(|(a, b)| a.body == b.body && a.range == b.range && a.content_type == b.content_type);
                     if !same { h.hit("parsers", "c15_roundtrip", "Response::parse", &i.to_string(), &format!("read back {:?} for {:?}", p, r)); }
                 }
@@ -1278,6 +1281,16 @@ mod fswatch {
                     &b"POST /file-upload/initiate?name=page.html&lastModified=1&size=2 HTTP/1.1\r\n\r\n"[..], &b"POST /file-upload/initiate?name=dir/index.html&lastModified=1&size=2 HTTP/1.1\r\n\r\n"[..],
                     &b"PUT /a.txt HTTP/1.1\r\nContent-Length: 3\r\n\r\nabc"[..], &b"DELETE /a.txt HTTP/1.1\r\n\r\n"[..], &b"GET /nothing-here HTTP/1.1\r\n\r\n"[..]] {
             let _ = e2e::run(raw, 0, false);
+        }
+        // requests that fill (and exceed) the default 10000-byte request buffer
+        for total in [9999usize, 10000, 10001, 20000] {
+            let head = "POST /form-multipart-enctype-post-method HTTP/1.1\r\nContent-Type: multipart/form-data; boundary=xyz\r\n\r\n--xyz\r\nContent-Disposition: form-data; name=\"f\"; filename=\"big.bin\"\r\n\r\n";
+            let mut raw = head.as_bytes().to_vec();
+            while raw.len() < total { raw.push(b'x'); }
+            let _ = e2e::run(&raw, 0, false);
+            let mut get = format!("GET /a.txt HTTP/1.1\r\nX-Fill: ").into_bytes();
+            while get.len() < total { get.push(b'y'); }
+            let _ = e2e::run(&get, 0, false);
         }
         // statics::search sets the tree up again: compare against a snapshot of a fresh setup
         let mut expected = vec![];
